@@ -192,62 +192,55 @@ CONSTANTS
   Abandons = TRUE
   CancelStyles <- TrStyles
   WithPoolClose = TRUE
-  Deviations <- {dev}
+  Deviations <- TrDev
   K = {k}
   Relax <- {relax}
+  DevChoices <- {choices}
 CONSTRAINT Mark
 POSTCONDITION Post
 CHECK_DEADLOCK FALSE
 """
 
+DEVIATIONS = [
+    "KeepaliveCountsAll",
+    "AbandonAssignedFresh",
+    "TimeoutAfterAssign",
+    "CancelAtGateLeavesNew",
+    "EstabFailLeaksStream",
+    "CancelInEstabLeaksStream",
+    "NativeCancelInShield",
+    "ReconnectOnFailed",
+    "WaiterCancelFlagsFailed",
+]  # same order as AllDevs in MCPoolTrace.tla
 
-def trace_cfg(dev="TrDev", k=9, relax="TrRelax"):
-    return TRACE_CFG.format(dev=dev, k=k, relax=relax)
+
+def trace_cfg(choices="ChoiceIntended", k=9, relax="TrRelax"):
+    return TRACE_CFG.format(choices=choices, k=k, relax=relax)
 
 
 def validate(traces, **kw):
-    return tlc.validate_traces("MCPoolTrace", trace_cfg(), traces, **kw)
-
-
-DEVIATIONS = {
-    "D1": "KeepaliveCountsAll",
-    "D2": "AbandonAssignedFresh",
-    "D3": "TimeoutAfterAssign",
-    "D4": "CancelAtGateLeavesNew",
-    "D5": "EstabFailLeaksStream",
-    "D6": "CancelInEstabLeaksStream",
-    "D7": "NativeCancelInShield",
-    "D8": "ReconnectOnFailed",
-    "D9": "WaiterCancelFlagsFailed",
-}
+    """Intended design only: one verdict per trace."""
+    res, stats = tlc.validate_traces("MCPoolTrace", trace_cfg(), traces, nd=1, **kw)
+    return [r[0] for r in res], stats
 
 
 def diagnose(traces):
     """For traces the intended design rejects: which NAMED deviations of the specification
     (with the invariants they are known to break switched off) explain them?
-    Round 1: every single deviation, and all of them together.  Round 2 (only for traces that
-    no single deviation explains but all together do): leave-one-out, which yields the set of
-    deviations that are each necessary.
+    Round 1 (one TLC run): every single deviation, and all of them together.  Round 2 (only for
+    traces that no single deviation explains but all together do): leave-one-out, which yields
+    the set of deviations that are each necessary.
     Returns per trace: (sorted deviation names - alternatives if found in round 1, a necessary
     set if found in round 2, [] if unexplained -, verdict with all on, longest prefix, mode)."""
-    from concurrent.futures import ThreadPoolExecutor
-
     if not traces:
         return []
-    keys = list(DEVIATIONS) + ["DevAll"]
-
-    def one(args):
-        k, trs = args
-        res, _ = tlc.validate_traces("MCPoolTrace", trace_cfg(dev=k, relax="RelaxInv"), trs, shards=max(1, min(3, (len(trs) + 9) // 10)))
-        return k, res
-
-    with ThreadPoolExecutor(max_workers=6) as ex:
-        results = dict(ex.map(one, [(k, traces) for k in keys]))
+    nd = len(DEVIATIONS)
+    r1, _ = tlc.validate_traces("MCPoolTrace", trace_cfg("ChoiceSingles", relax="RelaxInv"), traces, nd=nd + 1)
     out = [None] * len(traces)
     need2 = []
-    for i in range(len(traces)):
-        ok = sorted(DEVIATIONS[k] for k in DEVIATIONS if results[k][i][0] == "ACCEPT")
-        allv = results["DevAll"][i]
+    for i, row in enumerate(r1):
+        ok = sorted(DEVIATIONS[j] for j in range(nd) if row[j][0] == "ACCEPT")
+        allv = row[nd]
         if ok:
             out[i] = (ok, allv[0], allv[1], "single")
         elif allv[0] == "ACCEPT":
@@ -255,11 +248,9 @@ def diagnose(traces):
         else:
             out[i] = ([], allv[0], allv[1], "unexplained")
     if need2:
-        sub = [traces[i] for i in need2]
-        with ThreadPoolExecutor(max_workers=6) as ex:
-            r2 = dict(ex.map(one, [("No" + k, sub) for k in DEVIATIONS]))
+        r2, _ = tlc.validate_traces("MCPoolTrace", trace_cfg("ChoiceLeaveOneOut", relax="RelaxInv"), [traces[i] for i in need2], nd=nd)
         for j, i in enumerate(need2):
-            necessary = sorted(DEVIATIONS[k] for k in DEVIATIONS if r2["No" + k][j][0] != "ACCEPT")
-            allv = results["DevAll"][i]
+            necessary = sorted(DEVIATIONS[x] for x in range(nd) if r2[j][x][0] != "ACCEPT")
+            allv = r1[i][nd]
             out[i] = (necessary, allv[0], allv[1], "set")
     return out
